@@ -50,10 +50,12 @@ impl DecodeAttributeValue for ChannelNumber {
 //@end
 }
 // props: C01 C02
-proof fn lemma_roundtrip_ChannelNumber(n: u16, enc: Seq<u8>)
-    ensures ({ let x = ChannelNumber { number: n, rffu: 0 }; ChannelNumber::unwire(x.wire(enc), enc) == Some(x) }),
+proof fn lemma_roundtrip_ChannelNumber(x: ChannelNumber, enc: Seq<u8>)
+    requires x.rffu == 0,      // what ChannelNumber::new builds (the field is private)
+    ensures ChannelNumber::unwire(x.wire(enc), enc) == Some(x),
 {
-    lemma_be16_roundtrip(n as int);
+    lemma_be16_roundtrip(x.number as int);
+    assert(x.wire(enc).subrange(0, 2) =~= be16_seq(x.number as int));
 }
 
 // ---------------------------------------------------------------- EVEN-PORT (RFC 8656 18.6): R(1) RFFU(7)=0
@@ -503,4 +505,22 @@ impl DecodeAttributeValue for AddressErrorCode {
 //@stmt "Ok((AddressErrorCode::new(family, error_code), size))"
     proof { lemma_error_code_unwire_unique(ctx.raw_value@, error_code); }
 //@end
+}
+
+// props: C01 C02
+proof fn lemma_roundtrip_AddressErrorCode(x: AddressErrorCode, enc: Seq<u8>)
+    requires x.encodable(enc), 300 <= x.error_code.code() < 700,
+    ensures AddressErrorCode::unwire(x.wire(enc), enc) == Some(x),
+{
+    lemma_error_code_roundtrip(x.error_code);
+    let w = error_code_wire(x.error_code.code() as int, x.error_code.reason_chars());
+    let raw = x.wire(enc);
+    assert(raw.len() == w.len() && raw[2] == w[2] && raw[3] == w[3]);
+    assert(raw.subrange(4, raw.len() as int) =~= w.subrange(4, w.len() as int));
+    assert(w.subrange(4, w.len() as int) =~= vstd::utf8::encode_utf8(x.error_code.reason_chars()));
+    vstd::utf8::encode_utf8_valid_utf8(x.error_code.reason_chars());
+    // the family byte does not take part in the ERROR-CODE reading
+    assert(error_code_unwire(raw) is Some);
+    lemma_error_code_unwire_unique(raw, x.error_code);
+    assert(family_of(family_code(x.family)) == Some(x.family));
 }
